@@ -1,4 +1,4 @@
 INIT Init
 NEXT Next
 CONSTANTS
-  MaxParts = 3
+  MaxParts = 2
